@@ -47,6 +47,10 @@ type source struct {
 	seq    *atomic.Int64
 	cancel context.CancelFunc // parent context of the case: used to unwind a runaway
 
+	stopInFetch func() // issued from inside the fetch delivering page stopPage (once)
+	stopPage    int
+	stopFired   bool
+
 	mu              sync.Mutex
 	events          []srcEvent
 	fetches         int
@@ -188,6 +192,23 @@ func (it *itemIterator) GetNext() (interface{}, error) {
 // link: "first", "next", "future"; from = index of the page the link is followed from.
 // Returns the target page (idx, idle).
 func (s *source) fetch(ctx context.Context, link string, from *pg) (idx int, idle bool, err error) {
+	idx, idle, err = s.fetchPage(ctx, link, from)
+	if err == nil && !idle && s.stopInFetch != nil {
+		s.mu.Lock()
+		fire := !s.stopFired && idx == s.stopPage
+		if fire {
+			s.stopFired = true
+			s.ev("stop issued from inside the fetch of page %d, which then succeeds", idx)
+		}
+		s.mu.Unlock()
+		if fire {
+			s.stopInFetch()
+		}
+	}
+	return
+}
+
+func (s *source) fetchPage(ctx context.Context, link string, from *pg) (idx int, idle bool, err error) {
 	lat := time.Duration(0)
 	if s.spec.Stream != nil {
 		lat = time.Duration(s.spec.Stream.LatencyUs) * time.Microsecond
